@@ -16,11 +16,12 @@ TRUSTED = [
     "Coq 8.16.1 kernel + vm_compute",
     "translator: Gen/GridT.v (Grid.transform / transform_vectors closed forms, unit of C01) and Gen/FlowAlg.v (expv skeleton, C11)",
     "hand model of data/flow.py (FlowFields.axes / exp / sample / warp_image: Model/FlowRepr.v), tied by this run's correspondence; "
-    "the resampling of the data inside FlowFields.sample is taken from ImageBatch.sample (C05/C19) -- only the vector re-scaling is modelled",
+    "FlowFields.sample = resample every channel at the target grid's points mapped into the source cube + vector re-scaling (sample_item)",
     "modelled not verified: torch.nn.functional.grid_sample (Model/Sampler.v), float rounding (float32 grid attributes)",
 ]
 ASSUMPTIONS = [
-    "only the vector re-scaling of FlowFields.sample is modelled (the data resampling is ImageBatch.sample)",
+    "FlowFields.sample: the whole method (data resampling + vector re-scaling) is modelled and tied by correspondence; the theorem "
+    "covers the vector re-scaling (commutation of the resampling itself with channel-mixing representation changes is not proved)",
     "the image warped by warp_image lives on the same lattice as the flow field (as the code assumes)",
 ]
 AXN = ["GRID", "CUBE", "CUBE_CORNERS", "WORLD"]
@@ -28,7 +29,7 @@ HEADER = ["From Coq Require Import ZArith QArith Qcanon List String Bool.",
           "From DV Require Import Base.Field Base.LinAlg Base.QcInst Base.QcCmp Model.Enums Model.Homog Model.Grid Model.Sampler Model.SamplerQc "
           "Model.Flow Model.FlowQc Model.FlowRepr Gen.GridT.",
           "Import ListNotations.",
-          "Definition tol : Q := 2 # 100000.",
+          "Definition tol : Q := 2 # 100000.", "Definition tolS : Q := 3 # 10000.",
           "Definition mkg (n s c : list Qc) (d : list (list Qc)) : @gridf QcF :=",
           "  (fun i => nth i n (q 1 1), fun i => nth i s (q 1 1), fun i => nth i c (q 0 1), fun i j => nth j (nth i d []) (q 0 1)).",
           "Definition vclose_all (a b : list (list Qc)) : bool := all2 (vcloser tol) a b."]
@@ -150,10 +151,14 @@ def correspondence(ctx):
         else:
             if r["axes"] != c["a"].lower():
                 failures.append({"case": slim, "why": f"sample relabels the axes: {r['axes']}"})
+            ac = "true" if c["grids"][0]["align_corners"] else "false"
+            tsz = " ".join(str(n_) for n_ in c["to"][0]["size"])
             lines.append(f"Definition c{i} : bool := vclose_all (map (gvecs2 {D} {c['a']} {c['a']} {gcoq(st[0])} {gcoq(r['stored_to'][0])}) "
-                         f"{vcoq(vectors(r['plain'][0]))}) {vcoq(vectors(r['val'][0]))}.")
+                         f"{vcoq(vectors(r['plain'][0]))}) {vcoq(vectors(r['val'][0]))} && "
+                         f"fclose{D} tolS (sample_item{D} (K:=QcF) floorQ PZeros {ac} {c['a']} {gcoq(st[0])} {gcoq(r['stored_to'][0])} {tsz} "
+                         f"{qc_nested(c['data'][0])}) {qc_nested(r['val'][0])}.")
             names.append((i, f"c{i}", "plain"))
-            evals += 1
+            evals += 2
         if len(lines) >= 60:
             shards.append((lines, names))
             lines, names = [], []
@@ -180,10 +185,12 @@ def correspondence(ctx):
     return {"evaluations": evals, "distinct_nontrivial": len({str(c) for c in cases}),
             "rule": "all 16 ordered axes pairs (batches of 1-3 with shared / per-item rotated anisotropic grids, FlowFields and FlowField); "
                     "exp per axes x steps 0..2 x scale (D = 2, 3) against the coded model (= the specification, proved); warp_image per axes "
-                    "(zeros padding, D = 2, 3); the vector re-scaling of sample(grid') against gen_vecs2 applied to the resampled data; fields "
+                    "(zeros padding, D = 2, 3); sample(grid') against sample_item (data resampling at the mapped points + gen_vecs2 re-scaling) and its vector part alone; fields "
                     "are random dyadic (never all-zero), distinct by full input",
             "samples": samples, "failures": failures, "distribution": dist,
-            "tolerances": {"all": "2e-5 * (1 + |model|) (grid attributes are float32 in the implementation; the model uses the stored values)"}}
+            "tolerances": {"all": "2e-5 * (1 + |model|) (grid attributes are float32 in the implementation; the model uses the stored values)",
+                           "sample data part": "3e-4 * (1 + |model|): the two-grid point map is composed in float32 by the implementation "
+                                               "(centers up to 50, spacings down to 0.25 give ~1e-5 samples of position error)"}}
 
 
 def search(ctx, broken, corr_failures):
@@ -241,6 +248,7 @@ MANIFEST_ENTRY = {
             "Gen/GridT.v regenerated by tracing; hand model of data/flow.py run in Coq against FlowFields / FlowField axes (16 pairs, shared "
             "/ per-item grids), exp, warp_image, sample's vector re-scaling.",
     "note": "Known finding: "
-            "normalize_grid / denormalize_grid(align_corners=False) are half a sample off the grid's GRID<->CUBE point map. Partial: the data resampling "
-            "inside sample() is ImageBatch.sample (C05/C19). Trusted: Coq kernel, vm_compute, F.grid_sample model, symtorch, float rounding.",
+            "normalize_grid / denormalize_grid(align_corners=False) are half a sample off the grid's GRID<->CUBE point map. Partial: the sample theorem covers the vector re-scaling (D in {2,3}); that "
+            "the data resampling commutes with channel-mixing representation changes (linearity of sampling) is not proved -- the whole "
+            "method is modelled (sample_item) and tied by correspondence and the implementation-side evaluation. Trusted: Coq kernel, vm_compute, F.grid_sample model, symtorch, float rounding.",
 }
